@@ -48,13 +48,13 @@ func init() {
 	const ruleSB = "one run = one tape-decoded S-B session: start FEN, Zobrist seed, swarm weights, then 4..320 operations (push legal / push generator-emitted-illegal / take-back / fork / drop / adjudicate) over up to 4 live boards; every oracle of the property is evaluated after every operation. Non-trivial = at least 5 pushes and at least one take-back or fork; distinct = distinct hash of the decoded operation trace"
 	for _, p := range []string{"C02", "C05", "C07", "C08"} {
 		p := p
-		register(&Spec{Prop: p, QuickRuns: 24000, Level: "exploration", Rule: ruleSB, Real: sbReal, Stub: sbStub,
+		register(&Spec{CrashIsViolation: true, Prop: p, QuickRuns: 24000, Level: "exploration", Rule: ruleSB, Real: sbReal, Stub: sbStub,
 			Assumptions: []string{"verif/sim/rules (mailbox rules + game-as-list) is the reference; validated by perft against published counts before every check",
 				"moves are offered to PushMove only if the position's own generator emits them; boards are never popped below the fork point of a live relative (documented contracts)",
 				"sampling: a clean batch is evidence, not proof"},
 			Run: func(t *tape.Tape) *core.RunResult { return sb.BoardSession(t, []string{p}) }})
 	}
-	register(&Spec{Prop: "C14", QuickRuns: 24000, Level: "exploration",
+	register(&Spec{CrashIsViolation: true, Prop: "C14", QuickRuns: 24000, Level: "exploration",
 		Rule: "one run = either an S-B board session (FEN codec round trip both ways at every state visited, model-drawn and tape-drawn clocks) or an engine history (Engine.Reset with tape-drawn clocks / Move / TakeBack, 3..250 calls) with Engine.Position() compared to the standard FEN of the model game after every call. Non-trivial = at least one take-back or fork and several moves; distinct = distinct hash of the decoded operation trace",
 		Real: append([]string{"pkg/engine (Engine.Reset/Move/TakeBack/Position)"}, sbReal...), Stub: sbStub,
 		Assumptions: []string{"verif/sim/rules is the reference for positions and for the FEN clock definitions", "the all-strings half of the codec statement is C19's (not claimed)", "sampling: a clean batch is evidence, not proof"},
@@ -64,12 +64,12 @@ func init() {
 			}
 			return sb.BoardSession(t, []string{"C14"})
 		}})
-	register(&Spec{Prop: "C03", QuickRuns: 12000, Level: "exploration",
+	register(&Spec{CrashIsViolation: true, Prop: "C03", QuickRuns: 12000, Level: "exploration",
 		Rule: "one run = a tape-drawn game history (start FEN, 0..14 plies with repetition bias) followed by 1..3 real AlphaBeta.Search calls on the live board (depth 1..5 by material, full or selective exploration, static or quiescence leaf, seeded evaluation and move ordering), each compared with exhaustive negamax of the model game over the same moves and leaves (value via an independent integer score model, PV legality and optimality of its first move, board handed back unchanged). Non-trivial = a search was judged on a game with >= 2 plies of history; distinct = hash of the decoded trace",
 		Real: []string{"pkg/search (AlphaBeta, Quiescence, Leaf, exploration)", "pkg/eval (Score)", "pkg/board"}, Stub: []string{"leaf evaluator and exploration predicates are harness-supplied position-determined functions, applied identically to the real search and to M-search (verif/sim/msearch)"},
 		Assumptions: []string{"reference = verif/sim/msearch on verif/sim/rules; repo's own Minimax is not the oracle", "value at a root that is already drawn is not judged (sentence leaves it open); over-budget reference searches are counted as inconclusive", "sampling: a clean batch is evidence, not proof"},
 		Run:         sb.SearchSessionC03})
-	register(&Spec{Prop: "C11", QuickRuns: 6000, Level: "exploration",
+	register(&Spec{CrashIsViolation: true, Prop: "C11", QuickRuns: 6000, Level: "exploration",
 		Rule: "one run in five is an engine-level session (two real engines, same wiring and Zobrist seed, one with a 1..2 MB table and one without, taken through the same 2..4 games with noise switched on and off between them, Reset, moves, take-backs and analyses run to completion; with noise off every iteration must report the same score on both). The other runs: one run = a game history, one real table of tape-drawn size (2..65536 slots, optionally behind the min-depth-1 write filter) wrapped in a recording table, then 1..4 rounds of iterative deepening 1..d with the game advancing 1..2 plies (or going back one: always after a materially drawn root, which is searched unjudged) between rounds and an occasional halted search in between; judged per search: root score vs the same search without table, PV first move's no-table value, every (sampled) exact store vs the no-table value of the forked position at that depth, every hit vs the last store let through. Non-trivial = at least 2 judged searches and at least one table hit; distinct = hash of the decoded trace",
 		Real: []string{"pkg/search (AlphaBeta, Quiescence, table, WriteLimited)", "pkg/board", "pkg/engine (Reset, Move, TakeBack, SetNoise, Analyze) and searchctl.Iterative in the engine-level sessions (free-running goroutines, one search at a time)"}, Stub: []string{"recording wrapper around the real table; harness-supplied position-determined evaluator and exploration"},
 		Assumptions: []string{"differential baseline: the repo's own AlphaBeta with NoTranspositionTable", "sessions are excluded from the first search in which a repetition/fifty-move draw could arise inside the tree (sufficient condition: all game positions distinct, depth <= 5, clock+depth < 100)", "exact stores are sampled (every 1st..3rd) in the quick tier"},
@@ -79,7 +79,7 @@ func init() {
 			}
 			return sb.SearchSessionC11(t)
 		}})
-	register(&Spec{Prop: "C12", QuickRuns: 1200, Level: "fault_enumeration", NeedsBubble: true, RunawayKind: "search-does-not-end",
+	register(&Spec{CrashIsViolation: true, Prop: "C12", QuickRuns: 1200, Level: "fault_enumeration", NeedsBubble: true, RunawayKind: "search-does-not-end",
 		Rule: "every other run is an analysis-level session (Iterative.Launch inside a synctest bubble, as in C15, but always with halters: Handle.Halt by one or two simulated clients, the launch context cancelled, the hard-limit timer, at tape-chosen instants while the search is parked mid-tree; judged: whatever is reported after the halt was requested is a completed iteration's true result, the board is as handed over once Halt has returned and once the analysis has ended, and it ends). The other runs: one run = one search (AlphaBeta full/selective/quiescence, Minimax, or AlphaBeta with SARGON's check-extension leaf) on a live board with history, with a fresh or pre-filled real table of tape-drawn size; its cancellation polls are counted (P) and the search is rerun with the context cancelled at exactly the n-th poll for every n<=P (P<=250), else the first 80, last 80 and 90 tape-drawn polls. evaluations = halted searches; each is judged on: ErrHalted and no result, every board getter unchanged, every store after the halt verified against the no-table value of the forked position, and two follow-up searches on the same table compared with a twin table on which the halted search never ran. Non-trivial = at least 10 polls enumerated; distinct = hash of the decoded trace",
 		Real: []string{"pkg/search (AlphaBeta, Quiescence, Minimax, table)", "pkg/search/searchctl (Iterative, handle, EnforceTimeControl) in the analysis-level sessions", "cmd/sargon/sargon (OnePlyIfChecked)", "pkg/board", "seekerror/stdlib contextx.IsCancelled"}, Stub: []string{"context.Context replaced by a counting context whose Done() closes at the n-th call (the cancellation seam); harness-supplied evaluator/exploration; recording wrapper around the real table"},
 		Assumptions: []string{"cancellation is observed only through ctx.Done() polls (true for contextx.IsCancelled)", "follow-up comparison only where no repetition/fifty-move draw can arise in the tree and the root is not already drawn", "stop and the UCI timers reaching the search through the driver are exercised by C16/C04"},
